@@ -24,10 +24,16 @@ def gen_env(rng):
             'total_voting_power': rng.choice([0, 1, 500, 10**12]), 'min_block_time': rng.choice([1, 8, 15, 30])}
 
 
+ERR_KINDS = ('err', 'stuck', 'oof', 'rtfail', 'offguard')
+
+
 def parse_model(out):
-    """driver output -> same shape as interp_run.run_real"""
-    if out == 'err':
-        return 'err', None
+    """driver output -> same shape as interp_run.run_real; every non-result outcome of the model is ('err', kind):
+    `rtfail` (runtime failure: the reference *defines* that the operation fails — pytezos must raise), `oof` (fuel bound),
+    `stuck` (ill-typed configuration), `offguard` (guard mode: MAP over an empty collection with a type-changing body),
+    `err` (a literal rejected at the boundary)"""
+    if out in ERR_KINDS:
+        return 'err', out
     parts = out.split(' | ')
     if parts[0] == 'failed':
         t, v = parts[1].split(' ; ')
@@ -57,6 +63,11 @@ def binarize(m):
 
 def norm_val(v):
     return mich.normalize(binarize(v))
+
+
+def defined(spec_m):
+    """the reference defines the outcome of the run: a stack, a FAILWITH value, or a runtime failure"""
+    return spec_m[0] != 'err' or spec_m[1] == 'rtfail'
 
 
 def compare_outcomes(real, model, expect_ty=None):
@@ -93,6 +104,7 @@ def run(ctx, prop=PROP):
         code, st = g.program(ctx.rng.choice([3, 5, 8, 12, 16]))
         progs.append((code, st, gen_env(ctx.rng)))
     progs += edge_programs(g, ctx.rng, ctx.tier)
+    progs += boundary_programs(ctx.rng)
     lines = []
     for code, st, env in progs:
         line = f'{FUEL} | {env_words(env)} | {mich.to_line(code)}'
@@ -154,18 +166,22 @@ def run(ctx, prop=PROP):
                 got = [t for t, _ in real[1]]
                 ctx.count('static-type-oracle', 'checked')
                 if got != static:
-                    key = ('MAP-over-empty-collection-with-type-changing-body' if specg_m[0] == 'err'
+                    key = ('MAP-over-empty-collection-with-type-changing-body' if specg_m == ('err', 'offguard')
                            else 'type-differs:' + mich.to_line(code)[:120])
                     ctx.violation(key, f'runtime types {got} but the typing rules assign {static}',
                                   {'code': code, 'env': env, 'runtime_types': got, 'static_types': static})
         # ---- property oracle: an independent reference.  With the Lean side available it is Spec.eval; the
         # implementation must compute what the reference prescribes whenever the reference is defined.
-        if spec_m is not None and spec_m[0] != 'err':
+        if spec_m is not None and defined(spec_m):
+            ctx.count('spec', 'runtime-failure' if spec_m[0] == 'err' else 'defined')
             d2 = compare_outcomes(drop_fw(real), drop_fw(spec_m))
             if d2 and (('types' in d2) == (prop == 'C02')):
                 failing.append((size, len(failing), code, env, real, spec_m, specg_m, d2))
         elif spec_m is not None:
-            ctx.count('spec', 'stuck-or-fuel')
+            ctx.count('spec', {'oof': 'out-of-fuel', 'stuck': 'stuck'}.get(spec_m[1], 'literal-rejected'))
+            # progress (Interp.progress, proved): a program the Lean type checker accepts is never stuck
+            if spec_m[1] == 'stuck' and st is not None and tline != 'ill-typed':
+                ctx.mismatch('progress', {'code': code, 'env': env}, 'not stuck (well-typed: ' + tline[:80] + ')', 'stuck')
         if spec_m is None:
             # Lean side unavailable: fall back to the generator's statically tracked types as the oracle for C02
             if real[0] == 'ok' and prop == 'C02':
@@ -179,7 +195,7 @@ def run(ctx, prop=PROP):
     # ---- report: smallest failing programs first; the first few are minimised (each step re-runs both sides)
     for n, (size, _, code, env, real, spec_m, specg_m, d2) in enumerate(sorted(failing, key=lambda f: f[:2])):
         small, real_s, spec_s = (shrink(ctx, prop, code, env, real, spec_m) if n < 4 else (code, real, spec_m))
-        if specg_m[0] == 'err':
+        if specg_m == ('err', 'offguard'):
             key = 'MAP-over-empty-collection-with-type-changing-body'
         elif real[0] == 'err' and prop == 'C01':
             # the reference defines a result, the instruction raises: keyed by the raising instruction and its message
@@ -241,7 +257,7 @@ def deviates(ctx, prop, code, env):
     if out is None:
         return None
     spec_m = parse_model(out[0])
-    if spec_m[0] == 'err':
+    if not defined(spec_m):
         return None
     real = interp_run.run_real(code, env)
     d = compare_outcomes(drop_fw(real), drop_fw(spec_m))
@@ -311,6 +327,33 @@ def edge_programs(g, rng, tier):
         progs.append(([P('UNIT'), P('UNIT'), P('UPDATE', I(n))], None))
         progs.append(([P('UNIT'), P('UNPAIR', I(n + 1))], None))
     return [(code, st, gen_env(rng)) for code, st in progs if gen_interp.well_typed_edge(code) is False]
+
+
+def boundary_programs(rng):
+    """well-typed programs exactly at and just beyond the bounds where Michelson defines a *runtime failure* (the reference
+    outcome `rtfail`): 63-bit mutez results of ADD / MUL / SUB / SUB_MUTEZ / EDIV, shifts by 256 / 257 bits — run in every tier"""
+    P = lambda prim, *args: {'prim': prim, 'args': list(args)} if args else {'prim': prim}
+    I = lambda n: {'int': str(n)}
+    tz = lambda n: P('PUSH', P('mutez'), I(n))
+    nat = lambda n: P('PUSH', P('nat'), I(n))
+    M = 2 ** 63
+    progs = []
+    for a, b in [(M - 1, 0), (M - 2, 1), (M - 1, 1), (M // 2, M // 2), (M // 2, M // 2 - 1), (M - 1, M - 1), (1, 0)]:
+        progs.append(([tz(a), tz(b), P('ADD')], [('mutez',)]))
+        progs.append(([tz(b), tz(a), P('SUB')], [('mutez',)]))           # a - b
+        progs.append(([tz(a), tz(b), P('SUB')], [('mutez',)]))           # b - a: underflow unless equal
+        progs.append(([tz(a), tz(b), P('SUB_MUTEZ')], [('option', ('mutez',))]))
+    for a, n in [(M - 1, 1), (M // 2, 2), (M // 2 - 1, 2), (M // 2, 1), (1, M), (1, M - 1), (M - 1, 2), (0, 2 ** 70), (3, (M - 1) // 3), (3, (M - 1) // 3 + 1)]:
+        progs.append(([nat(n), tz(a), P('MUL')], [('mutez',)]))
+        progs.append(([tz(a), nat(n), P('MUL')], [('mutez',)]))
+    for a, n in [(M - 1, 1), (M - 1, M - 1), (M - 1, 0), (7, 2)]:
+        progs.append(([nat(n), tz(a), P('EDIV')], [('option', ('pair', ('mutez',), ('mutez',)))]))
+        progs.append(([tz(n), tz(a), P('EDIV')], [('option', ('pair', ('nat',), ('mutez',)))]))
+    for x in (0, 1, 2 ** 200 + 5):
+        for n in (0, 1, 255, 256, 257, 258, 1000):
+            progs.append(([nat(n), nat(x), P('LSL')], [('nat',)]))
+            progs.append(([nat(n), nat(x), P('LSR')], [('nat',)]))
+    return [(code, st, gen_env(rng)) for code, st in progs]
 
 
 def instrs_in(code):
